@@ -2,7 +2,11 @@
 """collect_seeds.py <seed root> <property> ...: copy confirmed seeded changes (patch, demonstration, description) from the
 sub-agents' scratch worktrees into /verif/seeded/<property>-m<k>/ and write meta.json from the verify / try logs."""
 import json, os, re, shutil, sys
-root, props = sys.argv[1], sys.argv[2:]
+args = sys.argv[1:]
+suffix = ""
+if args and args[0].startswith("--suffix="):
+    suffix = args.pop(0).split("=", 1)[1] + "-"
+root, props = args[0], args[1:]
 V = os.path.dirname(os.path.dirname(os.path.abspath(__file__)))
 def base_commit(wt):
     import subprocess
@@ -27,7 +31,8 @@ def lines(path):
 for p in props:
     verify = {os.path.basename(j["mutation"]): j for j in lines(os.path.join(root, f"{p}.verify.log"))}
     tries, first = {}, {}
-    for log in (f"{p}.try.log", f"{p}.retry.log", f"{p}.retry2.log"):
+    import glob as _glob
+    for log in [f"{p}.try.log"] + sorted(os.path.basename(x) for x in _glob.glob(os.path.join(root, f"{p}.retry*.log"))):
         for j in lines(os.path.join(root, log)):
             m_ = os.path.basename(j["mutation"])
             if log.endswith(".try.log"):
@@ -40,7 +45,7 @@ for p in props:
         if not v or not v.get("confirmed"):
             print("skip (not confirmed)", p, m)
             continue
-        dst = os.path.join(V, "seeded", f"{p}-{m}")
+        dst = os.path.join(V, "seeded", f"{p}-{suffix}{m}")
         os.makedirs(dst, exist_ok=True)
         for f in ("patch.diff", "demo.diff", "README.md", "suite-summary.txt"):
             if os.path.exists(os.path.join(src, f)):
@@ -53,7 +58,7 @@ for p in props:
             needs = " ".join(mm.group(2).split())[:900]
         res = tries.get(m, {})
         caught = sorted(k for k, r in res.items() if r.get("exit") == 1)
-        meta = dict(property=p, id=f"{p}-{m}", title=title, needs_to_manifest=needs,
+        meta = dict(property=p, id=f"{p}-{suffix}{m}", title=title, needs_to_manifest=needs,
                     base_commit=base_commit(os.path.join(root, p)),
                     confirmed=dict(demo_passes_on_unchanged=all(ok for _, ok in v["demo_on_unchanged"]),
                                    demo_fails_with_change=not all(ok for _, ok in v["demo_with_change"]),
